@@ -465,3 +465,25 @@ def run(ctx):
     # every position store (same rule as R11.4 / R04.6), otherwise funding is charged twice or skipped at the next action
     ctx.rule("R05.8", "margin and funding checkpoint move together at every position store (same rule as R11.4)", 6)
     pairing_instances(ctx, em, "R05.8")
+
+
+    # ---------------------------------------------------------------- R05.9
+    # the margin ratio and the free collateral value a position with the *stored* direction and sign its pnl by it: a
+    # record whose direction disagrees with the sign of its size reads a loss as a profit, and the maintenance check of
+    # an Open and the free-collateral guard of a Withdraw pass for a position that is under water (round-10 seed C05l).
+    # The rule is R02.5 (evaluated with C02's sign-table engine in its own context, the instances are copied).
+    from .. import core as _core
+    from . import c02 as _c02
+    ctx.rule("R05.9", "the direction stored with a changed size follows the sign of that size (the valuation behind every margin test is signed by it)", 5)
+    sub = _core.Ctx("C02", ctx.world, ctx.tier)
+    try:
+        _c02.run(sub)
+        n9 = 0
+        for i9 in sub.insts:
+            if i9.rule == "R02.5":
+                n9 += 1
+                ctx.inst("R05.9", i9.key.split(":", 1)[1], i9.ok, i9.where, i9.detail)
+        if n9 == 0:
+            ctx.lost("R05.9", "stored-direction instances")
+    except Exception as e:
+        ctx.undetermined("R05.9", "stored-direction", str(e)[:200])
